@@ -1174,3 +1174,76 @@ for _p in _properties():
          clause="A method m whose whole body is the call self.<attr>.m(...) forwards a request to a wrapped object. When the "
                 "implementations of m elsewhere in the package return a value, the wrapper must return the call's value too; an "
                 "expression statement makes it answer None whatever the wrapped object says (FieldWrapper.parse_range).")(_make_g12(_p["id"]))
+
+
+# ---------------------------------------------------------------------------------------------------------------------------
+#  G13  segment ranges are half-open: a number compared with the NEXT entry of an offsets table is compared strictly
+#       (`offsets[k] <= n <= offsets[k + 1]` gives the first document of segment k+1 to segment k)
+
+def _is_offsets_table(e):
+    t = e.id if isinstance(e, ast.Name) else e.attr if isinstance(e, ast.Attribute) else None
+    return t is not None and t.lower().lstrip("_").endswith("offsets")
+
+
+def _next_entry(e):
+    """T[k + 1] of an offsets table T"""
+    if not (isinstance(e, ast.Subscript) and _is_offsets_table(e.value)):
+        return False
+    i = e.slice
+    return isinstance(i, ast.BinOp) and isinstance(i.op, ast.Add) and (
+        (isinstance(i.right, ast.Constant) and i.right.value == 1) or (isinstance(i.left, ast.Constant) and i.left.value == 1))
+
+
+def closed_segment_ranges(funcs):
+    n = 0
+    out = []
+    for f in funcs:
+        for x in ast.walk(f.node):
+            if not isinstance(x, ast.Compare):
+                continue
+            terms = [x.left] + list(x.comparators)
+            for i, op in enumerate(x.ops):
+                a, b = terms[i], terms[i + 1]
+                if _next_entry(b) and not _next_entry(a):
+                    n += 1
+                    if isinstance(op, ast.LtE):
+                        out.append((f, x, "<="))
+                    elif isinstance(op, ast.Gt):
+                        out.append((f, x, ">"))     # `n > T[k+1]` as "beyond segment k" forgets n == T[k+1]
+                elif _next_entry(a) and not _next_entry(b):
+                    n += 1
+                    if isinstance(op, ast.GtE):
+                        out.append((f, x, ">="))
+                    elif isinstance(op, ast.Lt):
+                        out.append((f, x, "<"))
+    return n, out
+
+
+def _make_g13(pid):
+    def g13(ctx):
+        prog = ctx.prog
+        probe = ast.parse("def f(self, n, k):\n    offsets = self.offsets\n    if offsets[k] <= n <= offsets[k + 1]:\n        return k\n"
+                          "    if offsets[k] <= n < offsets[k + 1]:\n        return k\n").body[0]
+
+        class _F(object):
+            node = probe
+            name = "f"
+        if len(closed_segment_ranges([_F])[1]) != 1:
+            raise AnalysisError("G13 detector does not match its own positive example")
+        funcs = anchor_funcs(prog, pid)
+        n, bad = closed_segment_ranges(funcs)
+        ctx.ob("%s anchor files" % pid, True, "%d comparisons with the next entry of an offsets table examined" % n)
+        for f, x, op in bad:
+            ctx.ob(f, False, "a number is compared strictly with the next segment's offset",
+                   detail="`%s`: offsets[k + 1] is the first number of the NEXT segment, so the range of segment k is "
+                          "offsets[k] <= n < offsets[k + 1]; with `%s` the boundary number goes to the wrong segment" % (norm.canon(x), op),
+                   loc=ctx.nodeloc(f, x))
+    return g13
+
+
+for _p in _properties():
+    rule(_p["id"], "G13", "K6", "segment ranges over an offsets table are half-open",
+         clause="An offsets table holds the first document number of each segment, so entry k + 1 belongs to the next segment: a "
+                "number is inside segment k iff offsets[k] <= n < offsets[k + 1]. Any comparison of a number with T[k + 1] (T an "
+                "*offsets table) that admits equality on the segment-k side is reported. Expected count on the tree: zero; the "
+                "detector is checked against a built-in example on every run.")(_make_g13(_p["id"]))
